@@ -18,4 +18,4 @@ wd = common.workdir_for(prop + '-smoke')
 bad, nsh, secs = check.evaluate(mod, cases, wd)
 print('shards', nsh, 'coq', round(secs, 1), 'bad', len(bad))
 for i, subs in bad[:5]:
-    print(json.dumps({'input': cases[i].replay, 'items': check.describe(cases[i], subs)[:3], 'subs': subs[:10]}, default=str, ensure_ascii=False)[:1500])
+    print('SUBS', subs[:10]); print('ITEMS', json.dumps(check.describe(cases[i], subs)[:2], default=str, ensure_ascii=False)[:1800]); print('INPUT', json.dumps(cases[i].replay, default=str, ensure_ascii=False)[:600])
